@@ -46,6 +46,8 @@ FORMS = {
     norm("{ union_contains(target_union, &UnionVariant::Plural(*supplied_plural.clone())) }"): "contains-plural",
     norm("{ !supplied_union.nullable && supplied_union.variants.iter().all(|variant_var| match variant_var { UnionVariant::Scalar(_) => false, UnionVariant::Plural(plural_var) => { variable_type_satisfies_argument_type(plural_var.item.reference(), target_plural.item.reference()) } }) }"): "union-all-plural-rec",
     norm("{ variable_type_satisfies_argument_type(supplied_plural.item.reference(), target_plural.item.reference()) }"): "plural-rec",
+    norm("{ variable_type_satisfies_argument_type(target_plural.item.reference(), supplied_plural.item.reference()) }"): "plural-rec-swapped",
+    norm("{ !supplied_union.nullable && supplied_union.variants.iter().all(|variant_var| match variant_var { UnionVariant::Scalar(_) => false, UnionVariant::Plural(plural_var) => { variable_type_satisfies_argument_type(target_plural.item.reference(), plural_var.item.reference()) } }) }"): "union-all-plural-rec-swapped",
 }
 CONTAINS_FORMS = {
     norm("{ union.variants.contains(potential_member) }"): "by-equality",
@@ -229,6 +231,12 @@ def model_fn(X, sup, tgt):
     if arm == "plural-rec":
         need_kinds("P", "P")
         return model_fn(X, sup[1], tgt[1])
+    if arm == "plural-rec-swapped":
+        need_kinds("P", "P")
+        return model_fn(X, tgt[1], sup[1])
+    if arm == "union-all-plural-rec-swapped":
+        need_kinds("P", "U")
+        return z3.And(z3.BoolVal(not sup[1]), *[model_fn(X, tgt[1], v[1]) if v[0] == "VP" else z3.BoolVal(False) for v in sup[2]])
     raise Inconclusive("internal: unknown arm tag " + arm)
 
 
